@@ -204,6 +204,7 @@ func cmdDump(args []string) int {
 	smt := fs.Bool("smt", false, "print the SMT scripts")
 	timeout := fs.Int("timeout", 10, "")
 	keep := fs.String("keep", "", "directory to write complete query files to (debugging)")
+	covers := fs.Bool("covers", false, "emit a satisfiability query behind every contract call")
 	fs.Parse(args)
 	specs, err := loadSpecs(filepath.Join(*verif, "spec"), *repo)
 	if err != nil {
@@ -224,6 +225,7 @@ func cmdDump(args []string) int {
 	if con == nil {
 		con = &Contract{Func: *fn, Loops: map[int]*LoopSpec{}}
 	}
+	callCovers = *covers
 	x := newExec(ld.prog, specs, f, con, tp)
 	if err := x.analyze(); err != nil {
 		fmt.Println("ERROR:", err)
